@@ -19,6 +19,8 @@ func resetModels(t *Task) {
 	poolReuses, poolNews = 0, 0
 	poolAdversarial = t != nil && t.PoolMode == 1
 	ptrSerial = nil
+	mapOrderChoice = -1
+	syncMaps = map[*value][]syncMapEntry{}
 	resetRegexpModel()
 }
 
@@ -56,6 +58,84 @@ func init() {
 		return nil
 	}
 	externals[hname("vPoolReuses")] = func(fr *frame, args []value) value { return poolReuses }
+}
+
+// ---- sync.Map / sync.Mutex / sync.RWMutex / sync.Once: sequential models ----
+
+type syncMapEntry struct{ k, v value }
+
+var syncMaps map[*value][]syncMapEntry
+
+func syncMapKeyEq(a, b value) bool {
+	if isSym(a) || isSym(b) {
+		unsup("symbolic key in sync.Map")
+	}
+	defer func() {
+		if r := recover(); r != nil {
+			if _, ok := r.(unsupported); ok {
+				panic(r)
+			}
+			unsup("sync.Map key comparison: %v", r)
+		}
+	}()
+	return toString(a) == toString(b) && equalsDeep(a, b)
+}
+
+func equalsDeep(a, b value) bool {
+	switch x := a.(type) {
+	case iface:
+		y, ok := b.(iface)
+		return ok && sameType(x.t, y.t) && (x.t == nil || equals(x.t, x.v, y.v))
+	}
+	return toString(a) == toString(b)
+}
+
+func init() {
+	get := func(args []value) *value { return args[0].(*value) }
+	externals["(*sync.Map).Load"] = func(fr *frame, args []value) value {
+		for _, e := range syncMaps[get(args)] {
+			if syncMapKeyEq(e.k, args[1]) {
+				return tuple{e.v, true}
+			}
+		}
+		return tuple{iface{}, false}
+	}
+	externals["(*sync.Map).Store"] = func(fr *frame, args []value) value {
+		p := get(args)
+		for i, e := range syncMaps[p] {
+			if syncMapKeyEq(e.k, args[1]) {
+				syncMaps[p][i].v = args[2]
+				return nil
+			}
+		}
+		syncMaps[p] = append(syncMaps[p], syncMapEntry{args[1], args[2]})
+		return nil
+	}
+	externals["(*sync.Map).LoadOrStore"] = func(fr *frame, args []value) value {
+		p := get(args)
+		for _, e := range syncMaps[p] {
+			if syncMapKeyEq(e.k, args[1]) {
+				return tuple{e.v, true}
+			}
+		}
+		syncMaps[p] = append(syncMaps[p], syncMapEntry{args[1], args[2]})
+		return tuple{args[2], false}
+	}
+	externals["(*sync.Map).Delete"] = func(fr *frame, args []value) value {
+		p := get(args)
+		for i, e := range syncMaps[p] {
+			if syncMapKeyEq(e.k, args[1]) {
+				syncMaps[p] = append(append([]syncMapEntry{}, syncMaps[p][:i]...), syncMaps[p][i+1:]...)
+				return nil
+			}
+		}
+		return nil
+	}
+	nop := func(fr *frame, args []value) value { return nil }
+	for _, n := range []string{"(*sync.Mutex).Lock", "(*sync.Mutex).Unlock", "(*sync.RWMutex).Lock", "(*sync.RWMutex).Unlock", "(*sync.RWMutex).RLock", "(*sync.RWMutex).RUnlock"} {
+		externals[n] = nop
+	}
+	externals["(*sync.Mutex).TryLock"] = func(fr *frame, args []value) value { return true }
 }
 
 func poolNew(fr *frame, p *value) value {
